@@ -225,7 +225,9 @@ Section LoopProofs.
     srj s = map (fun k => k mod ns) (seq (i - p) p) /\
     sq s = drain_t' (map vi (seq 0 (i - p)), 0, []) /\
     srefs s = map ri (seq 0 (i - p)) /\
-    concat (strace s) = map pi (seq 0 (i - p)) /\
+    concat (map snd (strace s)) = map pi (seq 0 (i - p)) /\
+    concat (map (fun t => combine (fst (fst t)) (snd (fst t))) (strace s))
+      = map (fun k => (k / ns, k mod ns)) (seq 0 (i - p)) /\
     (i = total -> 0 < total -> p = 0).
 
   Lemma inv_init : Inv 0 init.
@@ -238,7 +240,7 @@ Section LoopProofs.
   Lemma inv_step i s : i < total -> Inv i s ->
     Inv (S i) (step dex refsrc attr agg ns b X total s i).
   Proof.
-    intros Hi (Hp & HXi & Hrj & Hq & Hrf & Htr & _).
+    intros Hi (Hp & HXi & Hrj & Hq & Hrf & Htr & Hix & _).
     set (p := length (sXi s)) in *. set (f := i - p) in *.
     assert (Hfi : f + p = i) by (unfold f; lia).
     assert (EXi : sXi s ++ [i / ns] = map (fun k => k / ns) (seq f (S p))).
@@ -267,7 +269,9 @@ Section LoopProofs.
         rewrite <- Hq. reflexivity.
       + rewrite Hrf, map_map. change (map (fun x => snd (pi x)) (seq f (S p))) with (map ri (seq f (S p))).
         rewrite Eseq, map_app. reflexivity.
-      + rewrite concat_app. cbn [concat]. rewrite app_nil_r, Htr, Eseq, map_app. reflexivity.
+      + rewrite map_app, concat_app. cbn [map concat snd]. rewrite app_nil_r, Htr, Eseq, map_app. reflexivity.
+      + rewrite map_app, concat_app. cbn [map concat fst snd]. rewrite app_nil_r, Hix, Eseq, map_app.
+        f_equal. clear. induction (seq f (S p)) as [|k l IH]; cbn; [reflexivity|]. rewrite IH. reflexivity.
     - (* keep accumulating *)
       apply orb_false_iff in Hc as [_ Hlast]. apply Nat.eqb_neq in Hlast.
       unfold Inv. cbn [sXi srj sq srefs strace].
@@ -322,13 +326,15 @@ Section Closed.
     exists t,
       dls_model dex refsrc attr agg ret ns b X
       = (Ok (map (ex_attr ns) X, if ret then Some (map (ex_refs ns) X) else None), t)
-      /\ concat t = flat_map (ex_pairs ns) X.
+      /\ concat (map snd t) = flat_map (ex_pairs ns) X
+      /\ concat (map (fun fl => combine (fst (fst fl)) (snd (fst fl))) t)
+         = flat_map (fun e => map (fun j => (e, j)) (seq 0 ns)) (seq 0 (length X)).
   Proof.
     intros Hns HX. unfold dls_model, run_loop.
     set (total := length X * ns).
     pose proof (run_inv dex refsrc attr agg pairv attr_rowwise ns Hns X b total total (le_n _)) as I.
     set (s := fold_left (step dex refsrc attr agg ns b X total) (seq 0 total) init) in *.
-    destruct I as (_ & _ & _ & Hq & Hrf & Htr & Hlast).
+    destruct I as (_ & _ & _ & Hq & Hrf & Htr & Hix & Hlast).
     assert (Hn : 1 <= length X) by (destruct X; [congruence | cbn; lia]).
     assert (Htot : 0 < total) by (unfold total; nia).
     rewrite (Hlast eq_refl Htot) in *. rewrite Nat.sub_0_r in *.
@@ -351,12 +357,16 @@ Section Closed.
         unfold ri, pi. cbn [snd]. destruct (block_index ns e j) as [-> ->]; [lia|]. reflexivity.
       - apply Forall_forall. intros l Hl. apply in_map_iff in Hl as (e & <- & _).
         rewrite map_length, seq_length. reflexivity. }
-    split.
+    split; [|split].
     - rewrite Erefs. destruct X as [|x X']; [congruence|]. reflexivity.
     - rewrite Htr. unfold total. change (seq 0 (length X * ns)) with (seq (0 * ns) (length X * ns)).
       rewrite seq_blocks, concat_map, map_map, flat_map_concat_map. f_equal.
       rewrite <- (map_nth_seq (ex_pairs ns) dex X). apply map_ext. intros e.
       apply block_pairs. exact Hns.
+    - rewrite Hix. unfold total. change (seq 0 (length X * ns)) with (seq (0 * ns) (length X * ns)).
+      rewrite seq_blocks, concat_map, map_map, flat_map_concat_map. f_equal.
+      apply map_ext. intros e. rewrite map_seq_shift. apply map_ext_in. intros j Hj. apply in_seq in Hj.
+      destruct (block_index ns e j) as [-> ->]; [lia|]. reflexivity.
   Qed.
 
   (* the state of the queue machine at every point of the loop (after i pairs, f = i - pending
@@ -432,17 +442,20 @@ Section Consistent.
   Hypothesis eqR_refl : forall a, eqR a a = true.
   Variable d : EXT.
   Variable base : list EXT.
-  Variable F : EXT -> W.
-  Variable G : EXT -> list R.
+  Variable F : nat -> EXT -> W.        (* attribution of an example, per configuration class *)
+  Variable G : EXT -> list R.          (* references of an example *)
   Variable ret : bool.
 
   Definition closed_run (v : variation) : runres (W := W) (R := R) :=
-    Ok (map F (select d base (v_sel v)), if ret then Some (map G (select d base (v_sel v))) else None).
+    Ok (map (F (v_cls v)) (select d base (v_sel v)),
+        if ret then Some (map G (select d base (v_sel v))) else None).
 
-  (* any two calls whose results have the closed form agree on every shared example *)
-  Lemma consistent_closed v0 v : consistent eqW eqR v0 v (closed_run v0) (closed_run v) = true.
+  (* any two calls of the same class whose results have the closed form agree on every shared
+     example *)
+  Lemma consistent_closed v0 v : v_cls v0 = v_cls v ->
+    consistent eqW eqR v0 v (closed_run v0) (closed_run v) = true.
   Proof.
-    unfold consistent, closed_run.
+    intros Hc. unfold consistent, closed_run. rewrite Hc.
     rewrite !map_length. unfold select at 1 2. rewrite !map_length, !Nat.eqb_refl. cbn [andb].
     apply forallb_seq. intros p0 Hp0. apply forallb_seq. intros p Hp.
     destruct (Nat.eqb_spec (nth p0 (v_sel v0) 0) (nth p (v_sel v) 0)) as [E|_]; [|reflexivity].
@@ -457,19 +470,30 @@ Section Consistent.
     induction l as [|x xs IH]; cbn; [tauto|]. intros [E|H]; [injection E as <- <-; reflexivity | auto].
   Qed.
 
-  (* a family every in-scope member of which has the closed form satisfies the spec *)
+  Lemma first_of_class_spec (c : nat) (vrs : list (variation * runres (W := W) (R := R))) vr :
+    first_of_class c vrs = Some vr -> In vr vrs /\ v_cls (fst vr) = c.
+  Proof.
+    induction vrs as [|x xs IH]; cbn [first_of_class]; [discriminate|].
+    destruct (Nat.eqb_spec (v_cls (fst x)) c) as [E|_].
+    - intros H. injection H as <-. split; [left; reflexivity | exact E].
+    - intros H. destruct (IH H) as [Hin Hc]. split; [right; exact Hin | exact Hc].
+  Qed.
+
+  (* a family every in-scope member of which has the closed form satisfies the spec, whatever
+     the order of the calls and the classes in between *)
   Lemma spec_family_closed (N ns : nat) (run : variation -> runres (W := W) (R := R)) vs :
     (forall v, scope N ns v = true -> run v = closed_run v) ->
     spec_family eqW eqR N ns vs (map run vs) = true.
   Proof.
     intros Hrun. unfold spec_family. rewrite map_length, Nat.eqb_refl. cbn [andb].
-    destruct vs as [|v0 vs']; [reflexivity|]. cbn [map].
-    apply forallb_forall. intros [v r] Hin.
-    change (run v0 :: map run vs') with (map run (v0 :: vs')) in Hin.
-    apply in_combine_map in Hin. subst r. cbn [fst snd].
+    apply forallb_forall. intros [v r] Hin. cbn [fst snd].
+    pose proof (in_combine_map run vs v r Hin) as ->.
+    destruct (first_of_class (v_cls v) (combine vs (map run vs))) as [[v0 r0]|] eqn:Ef; [|reflexivity].
+    apply first_of_class_spec in Ef as [Hin0 Hc]. cbn [fst snd] in *.
+    pose proof (in_combine_map run vs v0 r0 Hin0) as ->.
     destruct (scope N ns v0) eqn:S0; [|reflexivity].
     destruct (scope N ns v) eqn:S1; [|reflexivity]. cbn [andb].
-    rewrite (Hrun v0 S0), (Hrun v S1). apply consistent_closed.
+    rewrite (Hrun v0 S0), (Hrun v S1). apply consistent_closed. exact Hc.
   Qed.
 End Consistent.
 
@@ -487,7 +511,7 @@ Proof. destruct sel; [congruence | discriminate]. Qed.
 
 (* ---------- the encoding instance ---------- *)
 
-Lemma attrE_rowwise md : forall l, attrE md l = map (fun p => pairE md (fst p) (snd p)) l.
+Lemma attrE_rowwise md k : forall l, attrE md k l = map (fun p => pairE md k (fst p) (snd p)) l.
 Proof. reflexivity. Qed.
 
 Lemma nsE_select (c : cfgE) v : uniform_refs c = true ->
@@ -505,14 +529,15 @@ Lemma run_enc_closed (c : cfgE) v : uniform_refs c = true ->
   scope (length (ce_base c)) (ns_of c) v = true ->
   fst (run_enc c v)
   = closed_run dexE (ce_base c)
-      (ex_attr (refsrcE (ce_seed c)) (aggE (ce_mode c)) (pairE (ce_mode c)) (ns_of c))
+      (fun cls => ex_attr (refsrcE (ce_seed c)) (aggE (ce_mode c)) (pairE (ce_mode c) (cls_factor cls)) (ns_of c))
       (ex_refs (refsrcE (ce_seed c)) (ns_of c)) (ce_ret c) v.
 Proof.
   intros Hu Hs. pose proof (nsE_select c v Hu Hs) as Ens.
   apply scope_facts in Hs as (Hns & Hne & Hr).
   unfold run_enc, in_range. rewrite Hr. unfold dlsE. rewrite Ens.
-  destruct (dls_closed_form dexE (refsrcE (ce_seed c)) (attrE (ce_mode c)) (aggE (ce_mode c))
-              (pairE (ce_mode c)) (attrE_rowwise (ce_mode c)) (ce_ret c) (ns_of c) (v_b v)
+  destruct (dls_closed_form dexE (refsrcE (ce_seed c)) (attrE (ce_mode c) (cls_factor (v_cls v))) (aggE (ce_mode c))
+              (pairE (ce_mode c) (cls_factor (v_cls v))) (attrE_rowwise (ce_mode c) (cls_factor (v_cls v)))
+              (ce_ret c) (ns_of c) (v_b v)
               (select dexE (ce_base c) (v_sel v)) Hns (select_nonempty _ _ _ Hne)) as (t & E & _).
   rewrite E. reflexivity.
 Qed.
@@ -526,12 +551,12 @@ Lemma run_real_closed (c : cfgR) v :
   scope (length (cr_base c)) (cr_ns c) v = true ->
   fst (run_real c v)
   = closed_run dexR (cr_base c)
-      (ex_attr refsrcR aggR (fun ex r => (r_id ex, r)) (cr_ns c))
+      (fun cls => ex_attr refsrcR (aggR cls) (fun ex r => (r_id ex, r)) (cr_ns c))
       (ex_refs refsrcR (cr_ns c)) (cr_ret c) v.
 Proof.
   intros Hs. apply scope_facts in Hs as (Hns & Hne & Hr).
   unfold run_real, in_range. rewrite Hr. unfold dlsR.
-  destruct (dls_closed_form dexR refsrcR attrR aggR (fun ex r => (r_id ex, r)) attrR_rowwise
+  destruct (dls_closed_form dexR refsrcR attrR (aggR (v_cls v)) (fun ex r => (r_id ex, r)) attrR_rowwise
               (cr_ret c) (cr_ns c) (v_b v) (select dexR (cr_base c) (v_sel v)) Hns
               (select_nonempty _ _ _ Hne)) as (t & E & _).
   rewrite E. reflexivity.
@@ -569,31 +594,64 @@ Proof.
     rewrite map_map.
     apply (spec_family_closed tensors_eqb tensor_eqb tensors_eqb_refl tensor_eqb_refl
              dexE (ce_base cf)
-             (ex_attr (refsrcE (ce_seed cf)) (aggE (ce_mode cf)) (pairE (ce_mode cf)) (ns_of cf))
+             (fun cls => ex_attr (refsrcE (ce_seed cf)) (aggE (ce_mode cf)) (pairE (ce_mode cf) (cls_factor cls)) (ns_of cf))
              (ex_refs (refsrcE (ce_seed cf)) (ns_of cf)) (ce_ret cf)).
     intros v Hs. apply run_enc_closed; assumption.
   - rewrite map_map.
     apply (spec_family_closed qlist_close zrow_eqb qlist_close_refl zrow_eqb_refl
              dexR (cr_base cf)
-             (ex_attr refsrcR aggR (fun ex r => (r_id ex, r)) (cr_ns cf))
+             (fun cls => ex_attr refsrcR (aggR cls) (fun ex r => (r_id ex, r)) (cr_ns cf))
              (ex_refs refsrcR (cr_ns cf)) (cr_ret cf)).
     intros v Hs. apply run_real_closed; assumption.
 Qed.
 
 (* every two calls of a family (not only "against the first") agree on every shared example *)
 Theorem dls_pairwise_enc (c : cfgE) (v1 v2 : variation) :
-  uniform_refs c = true ->
+  uniform_refs c = true -> v_cls v1 = v_cls v2 ->
   scope (length (ce_base c)) (ns_of c) v1 = true -> scope (length (ce_base c)) (ns_of c) v2 = true ->
   consistent tensors_eqb tensor_eqb v1 v2 (fst (run_enc c v1)) (fst (run_enc c v2)) = true.
 Proof.
-  intros Hu H1 H2. rewrite !run_enc_closed by assumption.
-  apply consistent_closed; [apply tensors_eqb_refl | apply tensor_eqb_refl].
+  intros Hu Hc H1 H2. rewrite !run_enc_closed by assumption.
+  apply consistent_closed; [apply tensors_eqb_refl | apply tensor_eqb_refl | exact Hc].
 Qed.
 
 Theorem dls_pairwise_real (c : cfgR) (v1 v2 : variation) :
+  v_cls v1 = v_cls v2 ->
   scope (length (cr_base c)) (cr_ns c) v1 = true -> scope (length (cr_base c)) (cr_ns c) v2 = true ->
   consistent qlist_close zrow_eqb v1 v2 (fst (run_real c v1)) (fst (run_real c v2)) = true.
 Proof.
-  intros H1 H2. rewrite !run_real_closed by assumption.
-  apply consistent_closed; [apply qlist_close_refl | apply zrow_eqb_refl].
+  intros Hc H1 H2. rewrite !run_real_closed by assumption.
+  apply consistent_closed; [apply qlist_close_refl | apply zrow_eqb_refl | exact Hc].
+Qed.
+
+Definition refcall_of (s : Z) (X : list exE) (p : nat * nat) : refcall :=
+  ([e_x (nth (fst p) X dexE)], 1%Z, (s + Z.of_nat (snd p))%Z).
+
+Lemma render_refcalls nargs s X fl :
+  snd (render_flush nargs (Some s) X fl) = map (refcall_of s X) (combine (fst (fst fl)) (snd (fst fl))).
+Proof. destruct fl as [[Xi rj] batch]. reflexivity. Qed.
+
+(* the reference function is called exactly once per pair: on the one row of the pair's
+   example, with n = 1 and random_state = seed + j, pairs in order -- whatever the batch size *)
+Theorem enc_refcalls (c : cfgE) (v : variation) (s : Z) :
+  uniform_refs c = true -> scope (length (ce_base c)) (ns_of c) v = true -> ce_seed c = Some s ->
+  concat (map (fun fl : flushE => snd fl) (snd (run_enc c v)))
+  = flat_map (fun ex => map (fun j => ([e_x ex], 1%Z, (s + Z.of_nat j)%Z)) (seq 0 (ns_of c)))
+             (select dexE (ce_base c) (v_sel v)).
+Proof.
+  intros Hu Hs Hseed. pose proof (nsE_select c v Hu Hs) as Ens.
+  apply scope_facts in Hs as (Hns & Hne & Hr).
+  unfold run_enc, in_range. rewrite Hr. cbv zeta. unfold dlsE. rewrite Ens.
+  set (X := select dexE (ce_base c) (v_sel v)).
+  destruct (dls_closed_form dexE (refsrcE (ce_seed c)) (attrE (ce_mode c) (cls_factor (v_cls v))) (aggE (ce_mode c))
+              (pairE (ce_mode c) (cls_factor (v_cls v))) (attrE_rowwise (ce_mode c) (cls_factor (v_cls v)))
+              (ce_ret c) (ns_of c) (v_b v) X Hns (select_nonempty _ _ _ Hne)) as (t & E & _ & Hix).
+  rewrite E. cbn [snd]. rewrite map_map. rewrite Hseed.
+  erewrite map_ext by (intros fl; apply render_refcalls).
+  rewrite <- (map_map (fun fl : list nat * list nat * list (exE * tensor) => combine (fst (fst fl)) (snd (fst fl)))
+                      (map (refcall_of s X))).
+  rewrite <- concat_map, Hix.
+  rewrite !flat_map_concat_map, concat_map, map_map. f_equal.
+  rewrite <- (map_nth_seq (fun ex => map (fun j => ([e_x ex], 1%Z, (s + Z.of_nat j)%Z)) (seq 0 (ns_of c))) dexE X).
+  apply map_ext. intros e. rewrite map_map. reflexivity.
 Qed.
